@@ -435,6 +435,18 @@ func (b *Blockchain) SanityCheckNewHeight(block *core.Block, stateUpdate *core.S
 	if err := core.VerifyClassHashes(newClasses); err != nil {
 		return nil, err
 	}
+	// VerifyClassHashes cannot recompute Cairo 0 hashes and skips such definitions; a class the
+	// state diff declares as a Sierra class must not slip through that way.
+	for classHash := range stateUpdate.StateDiff.DeclaredV1Classes {
+		if def, ok := newClasses[classHash]; ok {
+			if _, isSierra := def.(*core.SierraClass); !isSierra {
+				return nil, fmt.Errorf(
+					"class %s is declared as a Sierra class but its definition is not one",
+					classHash.String(),
+				)
+			}
+		}
+	}
 
 	return b.stateBackend.VerifyBlockHash(block, stateUpdate.StateDiff)
 }
